@@ -264,11 +264,11 @@ class C15f(Obligation):
     pattern = 'P1 over all acyclic inheritance graphs of <=4 classes (edges symbolic)'
     assumptions = (
         'inheritance graphs are acyclic here (cycles are cut by the generator memo, obligation of the memo itself); '
-        'each base expression infers to one class; N<=5 (thorough 6) classes, any subset of the forward edges',
+        'each base expression infers to one class; N<=5 classes, any subset of the forward edges',
     )
 
     def configs(self, tier):
-        return [dict(N=n) for n in ((2, 3, 4, 5) if tier == 'quick' else (2, 3, 4, 5, 6))]
+        return [dict(N=n) for n in (2, 3, 4, 5)]
 
     def scenario(self, ctx, cfg):
         N = cfg['N']
